@@ -76,8 +76,7 @@ def lexer_rewrites(sn):
     sn.rw('R8', r'char::from_u32\(\s*u32::from_str_radix\(&hex, 16\)\.unwrap\(\)\s*\)\s*\.unwrap\(\)', 'w_hex_to_char(&hex)')
     sn.rw('R7', r'\bfor _ in 0\.\.2\b', 'for verif_i in 0usize..2')
     # --- number / symbol / indentation lexers and Iterator::next
-    is_some_and_r4(sn)
-    sn.rw('R4', r'self\s*\.peek_cur_ch\(\)\s*\.map\(\|t\| t\.is_ascii_digit\(\)\)\s*\.unwrap_or\(false\)', '(match self.peek_cur_ch() { Some(t) => t.is_ascii_digit(), None => false })')
+    rules.option_closures(sn)
     sn.rw('R4', r'\b(\w+)\.is_ascii_digit\(\)', r'w_is_ascii_digit(\1)')
     sn.rw('R4', r'\b(\w+)\.is_xid_start\(\)', r'w_is_xid_start(\1)')
     sn.rw('R4', r'\b(\w+)\.is_xid_continue\(\)', r'w_is_xid_continue(\1)')
@@ -183,6 +182,13 @@ impl Token {
         lexer_rewrites(sn)
         if post:
             post(sn)
+        # %ACC%: the local String that accumulates the token text, whatever it is called
+        macc = re.search(r'let mut (\w+) = w_lit_string\("", ', sn.text)
+        if macc:
+            spec = spec.replace('%ACC%', macc.group(1))
+            loops = [(k, inv.replace('%ACC%', macc.group(1))) for (k, inv) in loops]
+        elif '%ACC%' in spec or any('%ACC%' in inv for (_, inv) in loops):
+            raise LostAnchor("Lexer::%s: no accumulator `let mut x = \"\".to_string()`" % fname)
         sn.contract(spec)
         if hints:
             hints(sn)
@@ -248,8 +254,7 @@ impl Token {
         final(self).col_token_starts == old(self).col_token_starts + s@.len(),""" % FRAME)
 
     def comment_post(sn):
-        sn.rw('R4', r"self\.peek_cur_ch\(\)\.map\(\|cur\| cur != '\\n'\)\.unwrap_or\(false\)",
-              lambda m: "(match self.peek_cur_ch() { Some(cur) => cur != '\\n', None => false })", expect=1)
+        rules.option_closures(sn)
     add('lex_comment', """requires lexer_wf(*old(self)), old(self).cursor < old(self).chars@.len(), old(self).chars@[old(self).cursor as int] == '#', old(self).col_token_starts <= 0x1FFF_FFFF, old(self).lineno_token_starts < u32::MAX,
     ensures %s final(self).interpol_stack@ == old(self).interpol_stack@, final(self).line_start_cursor == old(self).line_start_cursor,
         final(self).lineno_token_starts == old(self).lineno_token_starts,
@@ -263,7 +268,7 @@ impl Token {
             self.interpol_stack@ == old(self).interpol_stack@, self.line_start_cursor == old(self).line_start_cursor,
             self.lineno_token_starts == old(self).lineno_token_starts, self.col_token_starts == old(self).col_token_starts,
             old(self).col_token_starts <= 0x1FFF_FFFF, old(self).lineno_token_starts < u32::MAX,
-            s@.len() == self.cursor - old(self).cursor, self.prev_token == old(self).prev_token, old(self).chars@[old(self).cursor as int] == '#',
+            %ACC%@.len() == self.cursor - old(self).cursor, self.prev_token == old(self).prev_token, old(self).chars@[old(self).cursor as int] == '#',
             line_fresh(*old(self)) ==> line_fresh(*self),
         decreases self.chars@.len() - self.cursor,""")])
 
